@@ -369,6 +369,27 @@ impl Property for C14 {
                 _ => blocks.push(if rng.chance(1, 2) { Block::Arith(rng.u8()) } else { Block::Filler(rng.u32()) }),
             }
         }
+        // a tenth of the programs make some of their calls while bits 31-24 of ER7 are not zero (the 24-bit address space
+        // ignores them; a call neither pushes nor pops). Interrupt returns do not tolerate such a stack pointer in the
+        // shipped emulator (effective-address ground, C08), so these programs receive no requests and the stack pointer
+        // is clean again right behind the call: MOV.W E7,R6 ; MOV.B #top,R6H ; MOV.W R6,E7
+        if rng.chance(1, 10) {
+            events.clear();
+            let any = rng.u8() | 1;
+            let top = *rng.pick(&[0x80u8, 0xff, 0x01, 0x7f, any]);
+            let mut nb = Vec::with_capacity(blocks.len() + 8);
+            for b in blocks.drain(..) {
+                let call = matches!(b, Block::Write { .. } | Block::WriteAt { .. } | Block::WriteArgAt { .. } | Block::SetHandler { .. } | Block::SetHandlerAt { .. });
+                if call && rng.chance(1, 2) {
+                    nb.push(Block::Raw(sp_top(top)));
+                    nb.push(b);
+                    nb.push(Block::Raw(sp_top(0)));
+                } else {
+                    nb.push(b);
+                }
+            }
+            blocks = nb;
+        }
         // a fifth of the programs run masked until here: every request stays pending across the calls behind it
         // (a set_handler for a vector whose request is already waiting decides where that request goes)
         let masked = rng.chance(1, 5);
@@ -416,6 +437,27 @@ impl Property for C14 {
                 installed.insert(h.vector, h.addr);
             }
         }
+        // stack-pointer top-byte episodes: exactly `dirty ; one call ; clean`, and no requests in such a program
+        let mut dirty_sp_calls = 0u64;
+        for (i, b) in scn.guest.blocks.iter().enumerate() {
+            if let Block::Raw(bytes) = b {
+                let shape = bytes.len() == 6 && bytes[..3] == [0x0d, 0xf6, 0xf6] && bytes[4..] == [0x0d, 0x6f];
+                if !shape || !scn.events.is_empty() {
+                    return Verdict::Invalid("raw block that is not a stack-pointer top-byte episode, or one with requests".into());
+                }
+                let prev_dirty = i >= 2 && matches!(&scn.guest.blocks[i - 2], Block::Raw(p) if p.len() == 6 && p[3] != 0);
+                if bytes[3] != 0 {
+                    let call_next = matches!(scn.guest.blocks.get(i + 1), Some(Block::Write { .. } | Block::WriteAt { .. } | Block::WriteArgAt { .. } | Block::SetHandler { .. } | Block::SetHandlerAt { .. }));
+                    let clean_after = matches!(scn.guest.blocks.get(i + 2), Some(Block::Raw(p)) if p.len() == 6 && p[3] == 0);
+                    if !call_next || !clean_after || prev_dirty {
+                        return Verdict::Invalid("stack-pointer top-byte episode without its call or its end".into());
+                    }
+                    dirty_sp_calls += 1;
+                } else if !prev_dirty {
+                    return Verdict::Invalid("end of a stack-pointer top-byte episode without its start".into());
+                }
+            }
+        }
         let mut markers: Vec<u8> = Vec::new();
         let mut ends_in_error = false;
         let mut ddr_ports: Vec<u8> = Vec::new();
@@ -450,7 +492,8 @@ impl Property for C14 {
                     ends_in_error = true;
                     break;
                 }
-                Block::Trapa(_) | Block::Raw(_) => return Verdict::Invalid("block kind not part of C14 scenarios".into()),
+                Block::Raw(_) => {}
+                Block::Trapa(_) => return Verdict::Invalid("block kind not part of C14 scenarios".into()),
                 _ => {}
             }
         }
@@ -573,6 +616,9 @@ impl Property for C14 {
         if scn.guest.blocks.iter().any(|b| matches!(b, Block::WriteAt { .. } | Block::WriteArgAt { .. } | Block::SetHandlerAt { .. })) {
             bump(stats, "probe.buffer_at_region_end");
         }
+        if dirty_sp_calls > 0 {
+            add(stats, "probe.calls_with_nonzero_sp_top_byte", dirty_sp_calls);
+        }
         if scn.guest.blocks.iter().any(|b| matches!(b, Block::Write { text, .. } if text.is_empty())) {
             bump(stats, "probe.zero_length_write");
         }
@@ -634,4 +680,9 @@ impl Property for C14 {
     fn size(scn: &Scn) -> usize {
         scn.events.len() + scn.guest.blocks.len() + scn.guest.blocks.iter().map(|b| if let Block::Write { text, .. } = b { text.len() / 8 } else { 0 }).sum::<usize>()
     }
+}
+
+/// MOV.W E7,R6 ; MOV.B #top,R6H ; MOV.W R6,E7 - sets bits 31-24 of ER7 and leaves the 24 address bits alone
+fn sp_top(top: u8) -> Vec<u8> {
+    vec![0x0d, 0xf6, 0xf6, top, 0x0d, 0x6f]
 }
